@@ -272,6 +272,7 @@ MUTATORS = (
     + [["update_faces", "bool_drop_first"], ["update_faces", "bool_keep_one"], ["update_faces", "int_permute"], ["update_faces", "int_repeat"]]
     + [["update_vertices", "drop_last"], ["update_vertices", "drop_first"]]
     + [["merge_vertices"], ["remove_unreferenced_vertices"], ["unmerge_vertices"], ["remove_infinite_values"]]
+    + [["merge_vertices_opt", "merge_norm"], ["update_vertices_inverse", "fold_duplicates"]]
     + [["process", False], ["process", True], ["fix_normals"], ["fill_holes"]]
     + [["edit", "vertex_item"], ["edit", "vertices_imul"], ["edit", "face_reverse"], ["edit", "vertices_nan"]]
     + [["view_take"], ["view_write"]]
@@ -339,6 +340,24 @@ def apply_mutator(ctx, a):
         m.update_vertices(mask)
     elif op == "merge_vertices":
         m.merge_vertices()
+    elif op == "merge_vertices_opt":
+        # vertices at the same position are merged although their normals differ
+        m.merge_vertices(merge_norm=True, merge_tex=True)
+    elif op == "update_vertices_inverse":
+        # a hand-made (mask, inverse) pair folding every vertex onto the first vertex at its position
+        V = np.asarray(m.vertices)
+        first = {}
+        keep = []
+        inverse = np.zeros(len(V), dtype=np.int64)
+        for i, p in enumerate(V.tolist()):
+            k = tuple(p)
+            if k not in first:
+                first[k] = len(keep)
+                keep.append(i)
+            inverse[i] = first[k]
+        mask = np.zeros(len(V), dtype=bool)
+        mask[keep] = True
+        m.update_vertices(mask, inverse=inverse)
     elif op == "remove_unreferenced_vertices":
         m.remove_unreferenced_vertices()
     elif op == "unmerge_vertices":
@@ -489,10 +508,15 @@ class System:
 
     def canon(self, ctx):
         m = ctx.m
-        c = m._cache
-        live = c.id_current == m.__hash__()
-        cache = tuple(sorted((str(k), _digest(v)) for k, v in c.cache.items())) if live else ()
-        data = tuple(sorted((k, _digest(v)) for k, v in m._data.data.items()))
+        try:
+            c = m._cache
+            live = c.id_current == m.__hash__()
+            cache = tuple(sorted((str(k), _digest(v)) for k, v in c.cache.items())) if live else ()
+            data = tuple(sorted((k, _digest(v)) for k, v in m._data.data.items()))
+        except AttributeError:
+            # the private fields are not where this check knows them (a refactor): digest the whole private state
+            cache = ("generic", harness.short_hash(repr(harness.generic_state(m, depth=4))))
+            data = (_digest(np.asarray(m.vertices)), _digest(np.asarray(m.faces)))
         return (data, cache, ctx.nmut, ctx.nread, ctx.view is not None and _digest(ctx.view),
                 None if ctx.cm is None else tuple(ctx.cm), ctx.density, _digest(m.visual.face_colors) if m.visual.defined else None)
 
@@ -501,8 +525,11 @@ class System:
         i.e. at least one derived value was carried across the mutation and could be stale."""
         if hist and hist[-1][0] == "read":
             return None
-        c = ctx.m._cache
-        return bool(c.id_current == ctx.m.__hash__() and len(c.cache) > 0)
+        try:
+            c = ctx.m._cache
+            return bool(c.id_current == ctx.m.__hash__() and len(c.cache) > 0)
+        except AttributeError:
+            return True
 
     def check(self, start, hist):
         if hist and hist[-1][0] == "read":
@@ -519,8 +546,8 @@ class System:
             # which cache entries present before reading are stale?
             stale = []
             if order == 0:
-                c = m._cache
-                if c.id_current == m.__hash__():
+                c = getattr(m, "_cache", None)
+                if c is not None and hasattr(c, "cache") and getattr(c, "id_current", None) == m.__hash__():
                     for k in READERS:
                         if k in c.cache:
                             try:
